@@ -4,7 +4,8 @@
    jdapimin.c), model/CopyMarkers.v (transupp.c, tj3Transform); constants: gen/GenIccConst.v. *)
 From Coq Require Import List ZArith Bool Permutation.
 From LJT Require Import lib.Sweep gen.GenIccConst model.MarkerRT model.Icc model.CopyMarkers model.TjHeader model.MarkerSuspend
-  proofs.MarkerSuspendProofs proofs.CopyHistory
+  proofs.MarkerSuspendProofs proofs.CopyHistory model.CopyMulti model.MarkerSeq model.MarkerTrace
+  proofs.CopyMultiProofs proofs.MarkerSeqProofs proofs.MarkerTraceProofs
   proofs.TjProofs proofs.C16Consts proofs.IccProofs proofs.IccRoundTrip proofs.IccFast proofs.MarkerProofs proofs.CopyProofs proofs.HeaderProofs.
 Import ListNotations.
 Local Open Scope Z_scope.
@@ -303,6 +304,78 @@ Theorem C16_tj_transform_double_icc_if_unconditional : TJ_TRANSFORM_ICC_UNCONDIT
     read_icc (markers_of (tj_transform_extras JCOPYOPT_ALL false true false (markers_of segs) q)) = IccBogus.
 Proof. exact tj_transform_double_icc_refuted. Qed.
 Print Assumptions C16_tj_transform_double_icc_if_unconditional.
+
+(* ---- round 3: ALL marker sequences, between scans, multi-transform calls, API state, traces ---- *)
+(* the marker-reader state after ANY sequence of well-formed COM/APPn, DRI, DQT, DHT, SOFn markers (any order, repeated,
+   overriding; header or between scans) is the abstract record apply_markers; the two fail together (second SOFn) *)
+Theorem C16_marker_sequence_refines : forall c ms, (forall k, 0 <= c k) -> Forall (wf_marker c) ms ->
+  forall rest, run_ends rest ->
+  exists bytes, emit_amarkers ms = Some bytes /\
+    forall fuel st, (length ms < fuel)%nat ->
+      read_marker_seq fuel c st (bytes ++ rest)
+      = match apply_markers c st ms with Some st' => Some (st', rest) | None => None end.
+Proof. exact marker_sequence_refines. Qed.
+Print Assumptions C16_marker_sequence_refines.
+
+Theorem C16_last_dri_wins : forall c st ms ri, apply_markers c st (ms ++ [ADri ri]) <> None ->
+  exists st', apply_markers c st (ms ++ [ADri ri]) = Some st' /\ h_restart (r_h st') = ri.
+Proof. exact last_dri_wins. Qed.
+Print Assumptions C16_last_dri_wins.
+
+Theorem C16_last_dqt_wins : forall c st ms t, apply_markers c st (ms ++ [ADqt [t]]) <> None ->
+  exists st', apply_markers c st (ms ++ [ADqt [t]]) = Some st' /\ r_qt st' (q_n t) = Some (to_natural (q_zz t)).
+Proof. exact last_dqt_wins. Qed.
+Print Assumptions C16_last_dqt_wins.
+
+(* emit_dqt (8- or 16-bit precision chosen from the values, zigzag order from jutils.c) is read back into the same slot *)
+Theorem C16_emit_dqt_reads_back : forall index natural qt rest, 0 <= index < NUM_QUANT_TBLS -> length natural = Z.to_nat DCTSIZE2 ->
+  Forall (fun q => 0 <= q < 65536) natural ->
+  exists body qt', emit_dqt index natural = emit_marker M_DQT ++ body /\ get_dqt qt (body ++ rest) = Some (qt', rest) /\
+    qt' index = Some natural /\ forall j, j <> index -> qt' j = qt j.
+Proof. exact emit_dqt_reads_back. Qed.
+Print Assumptions C16_emit_dqt_reads_back.
+
+(* one tj3Transform call, several transforms: each output gets the policy sub-list of ITS OWN option and the instance
+   profile unless THAT transform copied an ICC-looking APP2 marker (per-transform iccCopied) *)
+Theorem C16_tj_multi_transform : forall sm wj wa segs rest icc_buf, 0 <= sm < 5 ->
+  Forall seg_ok segs -> Forall (fun s => Forall is_byte (snd s)) segs -> stops rest ->
+  exists bytes, write_markers segs = Some bytes /\
+    forall flags fuel, (length segs < fuel)%nat ->
+      tj_transform_multi sm flags wj wa fuel (bytes ++ rest) icc_buf
+      = Some (map (fun copynone : bool =>
+                     if copynone then instance_part icc_buf
+                     else filter (fun s => policy sm wj wa (saved_of s)) segs
+                          ++ (if source_icc_copied sm segs then [] else instance_part icc_buf)) flags).
+Proof. exact (tj_multi_transform eq_refl). Qed.
+Print Assumptions C16_tj_multi_transform.
+
+(* jpeg_write_marker / jpeg_write_m_header: accepted exactly between jpeg_start_compress / jpeg_write_coefficients and the
+   first scanline; then the 65533 limit *)
+Theorem C16_write_marker_state : forall gs ns s,
+  (marker_write_allowed gs ns = false -> jpeg_write_marker_api gs ns s = WBadState) /\
+  (marker_write_allowed gs ns = true -> Zlength (snd s) <= WRITE_MARKER_MAX_DATALEN ->
+     jpeg_write_marker_api gs ns s = WOk (emit_marker (fst s) ++ emit_2bytes (Zlength (snd s) + 2) ++ map byte_of (snd s))) /\
+  (marker_write_allowed gs ns = true -> WRITE_MARKER_MAX_DATALEN < Zlength (snd s) -> jpeg_write_marker_api gs ns s = WBadLength).
+Proof. exact write_marker_state. Qed.
+Print Assumptions C16_write_marker_state.
+Theorem C16_marker_write_allowed_iff : forall gs ns, marker_write_allowed gs ns = true <->
+  ns = 0 /\ (gs = CSTATE_SCANNING \/ gs = CSTATE_RAW_OK \/ gs = CSTATE_WRCOEFS).
+Proof. exact marker_write_allowed_iff. Qed.
+Print Assumptions C16_marker_write_allowed_iff.
+
+(* the library's own JFIF marker is traced as a thumbnail-free marker of consistent size; JFXX markers by extension code *)
+Theorem C16_jfif_trace : forall c j, jfif_ok j -> cfg_wf c ->
+  trace_marker c M_APP0 (jfif_data j) =
+  (if j_major j =? 1 then [] else [WarnJfifMajor (j_major j) (j_minor j)])
+  ++ [TrJfif (j_major j) (j_minor j) (j_xd j) (j_yd j) (j_unit j)].
+Proof. exact jfif_trace. Qed.
+Print Assumptions C16_jfif_trace.
+Theorem C16_jfxx_trace : forall ext extra, is_byte ext ->
+  trace_app0 (jfxx_sig ++ ext :: extra) (6 + Zlength extra) (6 + Zlength extra) =
+  if ext =? 16 then [TrThumbJpeg (6 + Zlength extra)] else if ext =? 17 then [TrThumbPalette (6 + Zlength extra)]
+  else if ext =? 19 then [TrThumbRgb (6 + Zlength extra)] else [TrJfifExt ext (6 + Zlength extra)].
+Proof. exact jfxx_trace. Qed.
+Print Assumptions C16_jfxx_trace.
 
 (* ---- non-vacuity: the hypotheses above are satisfiable by concrete non-trivial values *)
 Example C16_ex_icc_two_segments : ex_two_check = true.
